@@ -889,4 +889,63 @@ theorem scan_large (a : Allow) (xs : List Str) (hb : ∀ e ∈ a, (xs.length : I
       simp only [hany, Bool.false_eq_true, if_false]
       exact ih a (fun e he => by have := hb e he; simp only [List.length_cons] at this; omega)
 
+
+/-! ## the walk of get_registry_points -/
+
+theorem pointAbove_iff (w : World) (c p : Comp) :
+    PointAbove w c p ↔ ((w.node c).isPoint = true ∧ p = c) ∨
+      ((w.node c).isPoint = false ∧ ∃ d ∈ (w.node c).dependents, PointAbove w d p) := by
+  constructor
+  · intro h
+    cases h with
+    | here g => exact Or.inl ⟨g, rfl⟩
+    | step g hd hr => exact Or.inr ⟨g, _, hd, hr⟩
+  · rintro (⟨g, rfl⟩ | ⟨g, d, hd, hr⟩)
+    · exact PointAbove.here g
+    · exact PointAbove.step g hd hr
+
+/-- `regPoints` finds exactly the registry points above a datasource, at any depth, whenever the
+fuel left exceeds its rank -/
+theorem regPoints_spec (w : World) (rank : Comp → Nat) (h : rankedBy w rank = true) (p : Comp) :
+    ∀ (f : Nat) (c : Comp), (c < w.nodes.length → rank c < f) →
+      (p ∈ regPoints w f c ↔ PointAbove w c p) := by
+  intro f
+  induction f with
+  | zero =>
+    intro c hf
+    simp only [regPoints, List.not_mem_nil, false_iff]
+    intro hpa
+    by_cases hc : c < w.nodes.length
+    · have := hf hc; omega
+    · have hn := node_none_of_ge w c hc
+      rcases (pointAbove_iff w c p).mp hpa with ⟨g, _⟩ | ⟨_, d, hd, _⟩
+      · simp [hn, Node.none] at g
+      · simp [hn, Node.none] at hd
+  | succ f ih =>
+    intro c hf
+    simp only [regPoints]
+    rw [pointAbove_iff]
+    by_cases g : (w.node c).isPoint = true
+    · simp [g, eq_comm]
+    · have g' : (w.node c).isPoint = false := by simpa using g
+      simp only [g', Bool.false_eq_true, if_false, false_and, false_or, true_and, List.mem_flatMap]
+      by_cases hc : c < w.nodes.length
+      · obtain ⟨_, hdep, _⟩ := ranked_spec w rank h c hc
+        have hfc := hf hc
+        have key : ∀ d ∈ (w.node c).dependents,
+            (p ∈ (if (w.node d).isPoint = true then [d] else regPoints w f d) ↔ PointAbove w d p) := by
+          intro d hd
+          have hdr := hdep d hd
+          by_cases gd : (w.node d).isPoint = true
+          · simp only [gd, if_true, List.mem_singleton]
+            rw [pointAbove_iff]
+            simp [gd]
+          · simp only [gd, Bool.false_eq_true, if_false]
+            exact ih d (fun _ => by omega)
+        constructor
+        · rintro ⟨d, hd, hm⟩; exact ⟨d, hd, (key d hd).mp hm⟩
+        · rintro ⟨d, hd, hm⟩; exact ⟨d, hd, (key d hd).mpr hm⟩
+      · have hn := node_none_of_ge w c hc
+        simp [hn, Node.none]
+
 end IV.Filters
